@@ -4,7 +4,7 @@
 (* behaviour (direction G).                                                 *)
 EXTENDS Containers, TLC, Json
 
-CONSTANTS KIND,      \* "table" | "inline" | "tablelike_table" | "tablelike_inline" | "map_sorted" | "map_insertion" | "array" | "aot"
+CONSTANTS SETUP, KIND,      \* "table" | "inline" | "tablelike_table" | "tablelike_inline" | "map_sorted" | "map_insertion" | "array" | "aot"
           MaxN, Keys, EMIT,
           SAMPLE     \* keep one in SAMPLE of the operations at the last level (1 = all)
 
@@ -25,6 +25,8 @@ MapOps ==
   \cup (IF IsLike THEN {} ELSE {[Op("retain", "", 0) EXCEPT !.ks = ks] : ks \in KeepSets} \cup {[Op("extend", "b", 2) EXCEPT !.k2 = "a"]})
   \cup (IF HasPlaceholders THEN {Op("index_mut", k, 0) : k \in Keys} \cup {Op("index_assign", k, 1) : k \in Keys}
                                \cup {Op("sort_values", "", 0)}
+                               \* the same order through the comparator API (placeholders take part in the comparison)
+                               \cup (IF IsLike THEN {} ELSE {Op("sort_values_by_key", "", 0)})
         ELSE {})
   \cup (IF HasPlaceholders /\ ~IsLike THEN {Op("remove_entry", k, 0) : k \in Keys} \cup {Op("insert_formatted", k, 2) : k \in Keys} ELSE {})
   \cup (IF KIND = "inline" THEN {Op("get_or_insert", k, 2) : k \in Keys} ELSE {})
@@ -40,7 +42,17 @@ SeqOps ==
 
 VARIABLES st, hist, ret
 vars == <<st, hist, ret>>
-Init == st = <<>> /\ hist = <<>> /\ ret = 0 - 1
+\* SETUP = 1: every history starts with three calls that leave three entries out of key order - with a placeholder
+\* between two of them where the kind has placeholders - so that short continuations meet a populated container
+SetupOps == IF SETUP = 0 THEN <<>>
+            ELSE IF IsSeqKind THEN <<Op("push", "", 2), Op("push", "", 1), Op("push", "", 2)>>
+            ELSE IF HasPlaceholders THEN <<Op("insert", "b", 1), Op("index_mut", "c", 0), Op("insert", "a", 1)>>
+            ELSE <<Op("insert", "b", 1), Op("insert", "c", 1), Op("insert", "a", 1)>>
+RECURSIVE AfterOps(_, _, _)
+AfterOps(S, ops, j) ==
+  IF j > Len(ops) THEN S
+  ELSE AfterOps(UNION {IF IsSeqKind THEN {r.m : r \in SeqApply(s, ops[j])} ELSE {r.m : r \in MapApply(KIND, s, ops[j])} : s \in S}, ops, j + 1)
+Init == st \in AfterOps({<<>>}, SetupOps, 1) /\ hist = SetupOps /\ ret = 0 - 1
 OpWeight(o) == Len(o.op) + Ord(o.k) * 3 + o.v * 5 + o.i * 7 + Cardinality(o.ks) * 11 + Cardinality(o.vs) * 13
 HistWeight == IF hist = <<>> THEN 0 ELSE OpWeight(hist[1]) + 17 * Len(hist) + (IF Len(hist) > 1 THEN 19 * OpWeight(hist[2]) ELSE 0)
 Keep(o) == IF Len(hist) + 1 < MaxN \/ SAMPLE = 1 THEN TRUE ELSE (OpWeight(o) + HistWeight) % SAMPLE = 0
